@@ -40,6 +40,8 @@ import MalVerif.Py.GenLang.Vars
 import MalVerif.Py.GenLangType.Typing
 import MalVerif.Py.GenLangType.Build
 import MalVerif.Py.AbsLangGraph
+import MalVerif.Py.GenClasses.Factory
+import MalVerif.Py.AbsClasses
 open Lean MalVerif
 
 namespace Drv
@@ -1825,6 +1827,142 @@ def opGenLangGraph (j : Json) : R Json := do
           jExc (jsonOfList Drv.jOptS) (GenLangType.lgasset_get_all_common_superassets s (aAt q.1) (some (aAt q.2)))) common)])
 
 end GenXG
+/-! #### the class factory of `Py/GenClasses` (`gen_classes`): `_create_classes`, `get_association_by_signature` -/
+namespace GenXC
+open MalVerif.Py MalVerif.Py.Classes
+open MalVerif.Py.Visitor (V)
+
+def errName : CErr → String
+  | .lookupError => "LookupError"
+  | .py .typeError => "TypeError" | .py .keyError => "KeyError" | .py .indexError => "IndexError"
+  | .py .attributeError => "AttributeError" | .py .valueError => "ValueError" | .py .unboundLocal => "UnboundLocalError"
+  | .py .recursion => "RecursionError" | .py .nonTermination => "<nonTermination>" | .py .unmodelled => "<unmodelled>"
+  | .py .compileError => "<compileError>"
+
+/-- a Python value as ORDERED JSON (`Lean.Json` objects do not keep the insertion order): `None` / `bool` / `int` / `str` as
+themselves, a float as `{"f": repr}`, a list as `{"l": [...]}`, a tuple as `{"t": [...]}`, a dictionary as
+`{"d": [[key, value], ...]}` in insertion order.  `harness/props/c06.py: ordered` renders the real objects the same way. -/
+partial def vToOrd : V → Json
+  | .none => Json.null
+  | .bool b => jB b
+  | .int i => jI i
+  | .num t => jO [("f", jS t)]
+  | .str s => jS s
+  | .list l => jO [("l", jsonOfList vToOrd l)]
+  | .tuple l => jO [("t", jsonOfList vToOrd l)]
+  | .dict d => jO [("d", jsonOfList (fun (e : String × V) => Json.arr #[jS e.1, vToOrd e.2]) d)]
+  | .unbound => jO [("x", jS "unbound")]
+  | .ctx .. => jO [("x", jS "ctx")]
+  | .token .. => jO [("x", jS "token")]
+
+/-- the inverse: the values the harness sends (TTC dictionaries, maxima) -/
+partial def vOfOrd (j : Json) : R V :=
+  match j with
+  | .null => pure .none
+  | .bool b => pure (.bool b)
+  | .str s => pure (.str s)
+  | .num _ => do pure (.int (← jint j))
+  | .arr _ => throw "bad ordered value"
+  | .obj _ =>
+    match j.getObjVal? "f", j.getObjVal? "l", j.getObjVal? "t", j.getObjVal? "d" with
+    | .ok f, _, _, _ => do pure (.num (← jstr f))
+    | _, .ok l, _, _ => do pure (.list (← jlist vOfOrd l))
+    | _, _, .ok t, _ => do pure (.tuple (← jlist vOfOrd t))
+    | _, _, _, .ok d => do
+      let kvs ← jlist (fun e => do
+        match (← jarr e) with
+        | [k, v] => pure ((← jstr k), (← vOfOrd v))
+        | _ => throw "bad item") d
+      pure (.dict kvs)
+    | _, _, _, _ => throw "bad ordered value"
+
+/-- what `json.loads` makes of the canonical TTC text of the language payload (keys sorted, as `jtxt` writes them) -/
+partial def vOfJson : Json → V
+  | .null => .none
+  | .bool b => .bool b
+  | .str s => .str s
+  | .num n => if n.exponent == 0 then .int n.mantissa else .num (toString n)
+  | .arr a => .list (a.toList.map vOfJson)
+  | .obj o => .dict (o.toList.map (fun e => (e.1, vOfJson e.2)))
+
+/-- the language graph of a language as the ties build it (`lgOfLang` of `Py/AbsClasses.lean`: asset object `i` =
+declaration `i`, `attack_steps` = the inherited fold), with two things taken from the language instead of their
+abstractions: the TTC of a step is the dictionary of the specification (`lgOfLang`: `{'name': n}` / `None`), and the
+association objects are the nodes `_generate_graph` creates (`LG.assocNodes`: per asset, ancestors' declarations first,
+duplicates of (name, left, right) skipped) instead of the declarations in declaration order -/
+def lgOfLangSpec (L : Lang) (nodes : List AssocDecl) : LG :=
+  let base := lgOfLang { L with assocs := nodes }
+  -- the asset objects are computed once (`lg.asset` is a function: the generated code reads it at every attribute access)
+  let objs : Array LGAsset := (L.assets.mapIdx (fun i a =>
+      { base.asset i with attack_steps := (L.foldSteps a.name).map (fun e =>
+          { name := e.1, type := e.2.type,
+            ttc := (match Json.parse e.2.ttc with | .ok t => vOfJson t | .error _ => V.unbound) }) })).toArray
+  { base with asset := fun i => objs.getD i {} }
+
+/-- the language graph as the harness read it off the real `LanguageGraph` object: `assets` (name, indices of the super
+assets, `attack_steps` with name / type / ttc) and `associations` (name; per field: index of the asset, field name, maximum) -/
+def parseLG (j : Json) : R LG := do
+  let step (e : Json) : R LGStep := do
+    match (← jarr e) with
+    | [n, t, c] => pure { name := ← jstr n, type := ← jstr t, ttc := ← vOfOrd c }
+    | _ => throw "bad step"
+  let fld (e : Json) : R LGField := do
+    match (← jarr e) with
+    | [a, f, m] => pure { asset := ← jnat a, fieldname := ← jstr f, maximum := ← vOfOrd m }
+    | _ => throw "bad field"
+  let assets ← jfield (jlist (fun a => do
+    pure ({ name := ← jfield jstr a "name", super_assets := ← jfield (jlist jnat) a "supers",
+            attack_steps := ← jfield (jlist step) a "steps" } : LGAsset))) j "assets"
+  let assocs ← jfield (jlist (fun a => do
+    pure ({ name := ← jfield jstr a "name", left_field := ← jfield fld a "left", right_field := ← jfield fld a "right" } : LGAssoc))) j "assocs"
+  let arr := assets.toArray
+  pure { asset := fun i => arr.getD i {}, assets := List.range arr.size, associations := assocs }
+
+/-- `python_jsonschema_objects` is a parameter of the translation; here: the library accepts every schema (what it does
+with the schema of a language is the assumption of C06 exercised on the real classes) -/
+def pjsAccepts : Pjs := { ObjectBuilder := fun s => pure s, build_classes := fun _ _ => pure .none }
+
+/-- `LanguageClassesFactory(lang_graph)` (`__init__`: `self.json_schema = {}; self._create_classes()`) by the GENERATED
+`factory_create_classes`; then the GENERATED `get_association_by_signature` for every signature of `sigs`, each with the
+class `Py/AbsClasses.lean` reads under the returned name; `inv` = the asset classes with their defenses as
+`schemaDefenses` reads them -/
+def runFactory (lg : LG) (sigs : List (String × String × String)) : Json :=
+  match Gen.factory_create_classes pjsAccepts lg {} with
+  | .error e => jO [("error", jS (errName e))]
+  | .ok self =>
+    let schema := self.json_schema
+    let on (o : Option Nat) : Json := match o with | some n => jN n | none => Json.null
+    jO [("schema", vToOrd schema),
+        ("sigs", jsonOfList (fun (q : String × String × String) =>
+          match Gen.factory_get_association_by_signature lg self q.1 q.2.1 q.2.2 with
+          | .error e => jO [("error", jS (errName e))]
+          | .ok cls => jO [("cls", jS cls),
+              ("class", match schemaClassAt schema q.1 cls with
+                | some c => Json.arr #[jS c.cls, jS c.lf, jS c.ltype, on c.lmax, jS c.rf, jS c.rtype, on c.rmax]
+                | none => Json.null)]) sigs),
+        ("assets", jsonOfList (fun n => Json.arr #[jS n,
+            jsonOfList (fun (d : String × String) => Json.arr #[jS d.1, jS d.2]) ((schemaDefenses schema n).getD [])])
+          (schemaAssetNames schema))]
+
+def opGenClasses (j : Json) : R Json := do
+  let sigs := (← jfieldOpt (jlist (fun e => do
+    match (← jarr e) with
+    | [n, l, r] => pure ((← jstr n), (← jstr l), (← jstr r))
+    | _ => throw "bad signature")) j "sigs").getD []
+  let mut out : List (String × Json) := []
+  match j.getObjVal? "lang" with
+  | .ok lj =>
+    let L ← Drv.parseLang lj
+    match LG.assocNodes L with
+    | .error e => out := out ++ [("fromLang", jO [("langError", jS (Drv.lgErrName e))])]
+    | .ok nodes => out := out ++ [("fromLang", runFactory (lgOfLangSpec L nodes) sigs)]
+  | .error _ => pure ()
+  match j.getObjVal? "lg" with
+  | .ok gj => out := out ++ [("fromLG", runFactory (← parseLG gj) sigs)]
+  | .error _ => pure ()
+  pure (jO out)
+
+end GenXC
 
 def dispatch (j : Json) : R Json := do
   let op ← jfield jstr j "op"
@@ -1859,6 +1997,7 @@ def dispatch (j : Json) : R Json := do
   | "gen_ser_model" => GenXS.M.opGenSerModel j
   | "gen_load_doc" => GenXS.M.opGenLoadDoc j
   | "gen_langgraph" => GenXG.opGenLangGraph j
+  | "gen_classes" => GenXC.opGenClasses j
   | _ => throw "bad-op"
 
 def handle (line : String) : String :=
